@@ -459,6 +459,30 @@ func main() {
 		allNames = append(allNames, p.Name())
 	}
 	for _, n := range allNames {
+		// one detector requiring [already enabled extractor, n, already enabled extractor]: n must still get enabled
+		if len(fsAll) > 1 && n != fsAll[0].Name() && n != fsAll[1].Name() {
+			r.Evals.Add(1)
+			cfg := &scalibr.ScanConfig{FilesystemExtractors: []filesystem.Extractor{fsAll[0], fsAll[1]},
+				Detectors: []detector.Detector{&scankit.Det{N: "harness-det", Required: []string{fsAll[0].Name(), n, fsAll[1].Name()}}}}
+			if err := cfg.EnableRequiredExtractors(); err != nil {
+				r.Violation("enable-required-extractors:after-an-enabled-one", fmt.Sprintf("requirements [%s, %s, %s] with the first and last already enabled: %v", fsAll[0].Name(), n, fsAll[1].Name(), err), nil)
+			} else {
+				cnt := 0
+				for _, e := range cfg.FilesystemExtractors {
+					if e.Name() == n {
+						cnt++
+					}
+				}
+				for _, e := range cfg.StandaloneExtractors {
+					if e.Name() == n {
+						cnt++
+					}
+				}
+				if cnt != 1 || len(cfg.FilesystemExtractors)+len(cfg.StandaloneExtractors) != 3 {
+					r.Violation("required-extractor-not-enabled", fmt.Sprintf("requirements [%s, %s, %s] with the first and last already enabled: %s enabled %d times, %d extractors in all", fsAll[0].Name(), n, fsAll[1].Name(), n, cnt, len(cfg.FilesystemExtractors)+len(cfg.StandaloneExtractors)), nil)
+				}
+			}
+		}
 		checkSet([]detector.Detector{&scankit.Det{N: "harness-det", Required: []string{n}}}, "harness detector requiring "+n)
 		if len(fsAll) > 0 {
 			checkSet([]detector.Detector{&scankit.Det{N: "harness-det", Required: []string{fsAll[0].Name(), n}}, &scankit.Det{N: "harness-det-2", Required: []string{n}}}, "two harness detectors requiring "+n)
